@@ -56,17 +56,24 @@ struct BufCheck : Check {
 		p.rows = (int) r.range(6, 30); p.cols = (int) r.range(30, 100);
 		G g(r, p, vi);
 		int nfiles = c20() ? (int) r.range(2, r.chance(1, 4) ? 16 : 6) : (int) r.range(1, r.chance(1, 6) ? 16 : 4);
+		// sometimes the editor starts without a file: the unnamed buffer can be modified, left and forgotten
+		// (it occupies one of the 16 slots: the statement is about up to 16 open buffers)
+		bool unnamed_start = !c20() && r.chance(1, 6);
+		if (unnamed_start && nfiles > 15) nfiles = 15;
 		g.nfiles = nfiles;
 		for (int i = 0; i < nfiles; i++) {
 			FileSpec f;
 			f.path = "F" + std::to_string(i);
 			int nl = (int) r.range(0, 8);
 			for (int k = 0; k < nl; k++) f.data += "f" + std::to_string(i) + " line " + std::to_string(k) + " " + gen_line(r, r.range(0, 12), A_LOWER) + "\n";
+			// now and then a line beyond the 4 KiB write batch (written on its own path in lbuf_wr)
+			if (!c20() && r.chance(1, 12)) f.data += "long " + gen_line(r, r.range(4090, 4200), A_LOWER) + "\n";
 			f.mtime = -100 - i;
 			p.files.push_back(f);
 		}
-		p.argv.push_back("F0");
-		g.open.push_back("F0");
+		p.meta = Json::obj(); p.meta.set("unnamed_start", unnamed_start);
+		if (!unnamed_start) p.argv.push_back("F0");
+		g.open.push_back(unnamed_start ? "" : "F0");
 		bool faults = !c20() && r.chance(1, 3);
 		bool toucher = r.chance(1, 3);
 		if (nfiles == 16 && r.chance(3, 4)) {
@@ -109,8 +116,26 @@ struct BufCheck : Check {
 					break;
 				}
 				{ Json m = G::M("wpart"); long a = r.range(1, 3), b = r.range(a, a + 3); m.set("a", a).set("b", b); g.add(std::to_string(a) + "," + std::to_string(b) + "w", m); break; }
-			case 5: { Json m = G::M("wother"); std::string o = "O" + std::to_string(r.below(2)); m.set("path", o); g.add("w! " + o, m); break; }
-			case 6: g.add("e!", G::M("reload")); break;
+			case 5:
+				if (r.chance(1, 3)) {
+					// the text piped to a command: no file is written, nothing about the buffer changes
+					static const char *sink[] = {"wc -l", "cat", "true", "head -1"};
+					g.add("w !" + std::string(sink[r.below(4)]), G::M("wpipe"));
+					break;
+				}
+				{ Json m = G::M("wother"); std::string o = "O" + std::to_string(r.below(2)); m.set("path", o); g.add("w! " + o, m); break; }
+			case 6:
+				if (faults && r.chance(1, 2)) {
+					// the reload itself fails: the file cannot be opened, or reading it breaks off
+					Step s = ex_step(p, "e!"); s.meta = G::M("reload");
+					Fault f; f.nth = 0;
+					if (r.chance(1, 2)) { f.seam = "fopen"; f.effect = "err"; f.err = r.chance(1, 2) ? EACCES : EMFILE; }
+					else { f.seam = "fread"; f.effect = "err"; f.err = EIO; f.nth = (int) r.below(2); }
+					s.faults.push_back(f);
+					p.steps.push_back(s);
+					break;
+				}
+				g.add("e!", G::M("reload")); break;
 			case 7: {
 				std::string path = "F" + std::to_string(r.below((uint64_t) nfiles));
 				Json m = G::M("e"); m.set("path", path);
@@ -153,7 +178,8 @@ struct BufCheck : Check {
 		if (!c20() && r.chance(1, 3)) {
 			int w = (int) r.below(3);
 			if (w == 0) g.add("wq", G::M("wq")); else if (w == 1) g.add("x", G::M("wq")); else if (vi) g.addkeys("ZZ", G::M("wq")); else g.add("x", G::M("wq"));
-		} else g.add("q", G::M("q"));
+		} else if (!c20() && r.chance(1, 5)) g.add("xa", G::M("xa"));
+		else g.add("q", G::M("q"));
 		return p;
 	}
 
@@ -264,7 +290,8 @@ struct BufCheck : Check {
 	void quiescent(RunCtx &c, int after) override
 	{
 		if (after == -1) {
-			T.open_new("F0", fs_text("F0"));
+			if (c.plan.meta.boolean("unnamed_start")) T.open_new("", Text());
+			else T.open_new("F0", fs_text("F0"));
 			check_current(c, "start", false);
 		} else step_done(c, c.plan.steps[(size_t) after]);
 		// remember where the current buffer is left
@@ -331,6 +358,9 @@ struct BufCheck : Check {
 				b.saved_text = b.text; b.saved_pos = b.pos; b.saved_known = true; b.partial_own_write = false;
 			}
 			check_current(c, ctx, false);
+		} else if (k == "wpipe") {
+			c.count("pipe_writes");
+			check_current(c, ctx, false);
 		} else if (k == "swsq") {
 			Text now = c.text();
 			if (now == b.text) {
@@ -355,7 +385,20 @@ struct BufCheck : Check {
 			Text now = c.text();
 			Text want = fs_text(b.path);
 			c.compared();
-			if (K.fs.count(b.path)) {
+			bool read_ok = msg.find("[r]") != std::string::npos && msg.find("read failed") == std::string::npos;
+			if (K.fs.count(b.path) && !read_ok && !s.faults.empty()) {
+				// the reload failed: whatever is in the buffer now, it counts as saved only if it equals the file
+				c.count("reloads_failed");
+				if (now != b.text) {
+					// a read that broke off left part of the file in the buffer: that text is not "saved"
+					// unless it happens to equal the file; where undo leads from here is not judged
+					b.pushed_same_or_new(now);
+					b.saved_text = want; b.saved_known = true; b.partial_own_write = false;
+					b.saved_pos = -1;
+					b.fuzzy_undo = true;
+				}
+				// (an open that failed changed nothing: the buffer is as dirty or clean as it was)
+			} else if (K.fs.count(b.path)) {
 				if (now != want) c.violate(V("reload/text-differs-from-file"), ctx + ": after :e! the buffer has " + std::to_string(now.size()) + " lines, the file " + std::to_string(want.size()));
 				b.pushed_same_or_new(now);
 				b.saved_text = now; b.saved_pos = b.pos; b.saved_known = true; b.partial_own_write = false;
@@ -393,6 +436,9 @@ struct BufCheck : Check {
 			for (auto &x : T.slots) x.id = ++n;
 			T.next_id = n;
 			check_current(c, ctx, false);
+		} else if (k == "xa") {
+			// still running: some buffer could not be written (an unnamed one, or a file changed by someone else)
+			c.count("xa_refused");
 		} else if (k == "q" || k == "wq") {
 			// still running: the quit was refused (or, for wq/x, the write failed)
 			bool clean = true;
@@ -493,6 +539,17 @@ struct BufCheck : Check {
 					std::string cls = b.partial_own_write ? "safety/quit-after-partial-own-write" : "safety/quit-discarded-changes";
 					c.violate(V(cls), ctx + ": the editor exited although buffer \"" + b.path + "\" (" + std::to_string(b.text.size()) + " lines) differs from its file (" + std::to_string(b.saved_text.size()) + " lines as last read/written)");
 				}
+			}
+		} else if (k == "xa") {
+			// every modified buffer must have reached its file; a modified buffer without a name cannot have
+			c.compared();
+			c.count("xa_exited");
+			for (auto &b : T.slots) {
+				if (!b.saved_known || !b.differs()) continue;
+				bool ex = false;
+				std::string got = b.path.empty() ? std::string() : c.file(b.path, &ex);
+				if (b.path.empty() || !ex || file_lines(got) != b.text)
+					c.violate(V("safety/xa-discarded-changes"), ctx + ": the editor exited although buffer \"" + b.path + "\" (" + std::to_string(b.text.size()) + " lines) differs from its file and :xa did not write it");
 			}
 		} else {
 			c.violate(V("exit/unexpected"), ctx + ": the editor exited during a command that is not a quit");
